@@ -255,9 +255,11 @@ class Merger(object):
 
         for fn in template_data:
             arrays = _load_multiple_files(fn, self.subdirs)
-            # For ind arrays, we need to take into account the channel offset.
-            for array, offset in zip(arrays, self.channel_offsets):
-                array += offset
+            # For ind arrays, we need to take into account the channel offset
+            # (pc features) or the template offset (template features).
+            offsets = self.channel_offsets if fn == 'pc_feature_ind.npy' else self.template_offsets
+            for array, offset in zip(arrays, offsets):
+                array += int(offset)
             concat = _concat(arrays, axis=0).astype(np.uint32)
             self._save(fn, concat)
 
